@@ -128,7 +128,8 @@ def key_for(symptom: str, graph, nodes=None, extra: str = '',
     if len(feats) == 1:
         return f'{pid}:{feats[0]}'
     if len(feats) > 1:
-        return f'{pid}:several-hazards:' + '+'.join(feats)
+        # cannot tell which one from the witness: one key, list in detail
+        return f'{pid}:several-hazards'
     return f'{pid}:{symptom}' + (f':{extra}' if extra else '')
 
 
@@ -358,8 +359,19 @@ def check_config(ctx, case, text, style_label):
     try:
         cfg, messages, flow = load_config(text, graph)
     except Exception as exc:
+        msg = str(exc)
+        if 'Undefined custom output' in msg and any(
+                f'{fam}:expire-a' in msg for fam in graph.families):
+            # witness names the mechanism: a family expire qualifier on a
+            # node that ends a chain (or stands alone) is looked up as a
+            # custom output
+            key = (f'{case.pid}:family-expire-qualifier-at-chain-end-taken-'
+                   f'for-custom-output')
+        else:
+            key = case.key('config-rejects-valid-graph', None,
+                           type(exc).__name__)
         ctx.violation(
-            case.key('config-rejects-valid-graph', None, type(exc).__name__),
+            key,
             f'WorkflowConfig raised {type(exc).__name__} on a valid graph '
             f'[{style_label}]: {str(exc)[:200]}',
             case.detail(text, style=style_label))
